@@ -55,7 +55,16 @@ func pkgDecls(dir string) (map[string]sigEntry, error) {
 	show := func(n any) string {
 		var b bytes.Buffer
 		_ = printer.Fprint(&b, fset, n)
-		return strings.Join(strings.Fields(b.String()), " ")
+		// one line, still parseable: newlines inside braces become `;`
+		t := b.String()
+		t = regexp.MustCompile(`\{\s*\n`).ReplaceAllString(t, "{ ")
+		t = regexp.MustCompile(`\n\s*\}`).ReplaceAllString(t, " }")
+		t = strings.ReplaceAll(t, "\n", "; ")
+		t = strings.Join(strings.Fields(t), " ")
+		for strings.Contains(t, "; ;") {
+			t = strings.ReplaceAll(t, "; ;", ";")
+		}
+		return t
 	}
 	for _, p := range pkgs {
 		for _, f := range p.Files {
@@ -376,6 +385,8 @@ func main() {
 		}
 		aliases, an := renameAliases(sp, keep, baseline[rel], cur)
 		notes = append(notes, an...)
+		fieldRen, fn := fieldRenames(rel, baseline[rel], cur)
+		notes = append(notes, fn...)
 		// assemble the file
 		var body strings.Builder
 		usedImports := map[string]bool{}
@@ -383,7 +394,13 @@ func main() {
 			if !keep[d] {
 				continue
 			}
-			body.WriteString(d.src + "\n\n")
+			src := d.src
+			for o, n := range fieldRen {
+				if d.sels[o] {
+					src = regexp.MustCompile(`\.`+regexp.QuoteMeta(o)+`\b`).ReplaceAllString(src, "."+n)
+				}
+			}
+			body.WriteString(src + "\n\n")
 			for r := range d.refs {
 				if _, ok := sp.imports[r]; ok {
 					usedImports[r] = true
@@ -538,6 +555,87 @@ func renameAliases(sp *shimPkg, keep map[*shimDecl]bool, base, cur map[string]si
 		}
 	}
 	return out, notes
+}
+
+// fieldRenames: struct fields of the package's types that kept their position and type but changed
+// their name (old name -> new name).  A name that would map to two different new names, or that is
+// still a field of some struct of the package, is left alone.
+func fieldRenames(rel string, base, cur map[string]sigEntry) (map[string]string, []string) {
+	fields := func(sig string) [][2]string {
+		expr, err := parser.ParseExpr(sig)
+		if err != nil {
+			return nil
+		}
+		st, ok := expr.(*ast.StructType)
+		if !ok || st.Fields == nil {
+			return nil
+		}
+		fset := token.NewFileSet()
+		var out [][2]string
+		for _, f := range st.Fields.List {
+			var b bytes.Buffer
+			_ = printer.Fprint(&b, fset, f.Type)
+			if len(f.Names) == 0 {
+				out = append(out, [2]string{"", b.String()})
+			}
+			for _, n := range f.Names {
+				out = append(out, [2]string{n.Name, b.String()})
+			}
+		}
+		return out
+	}
+	stillUsed := map[string]bool{}
+	for _, e := range cur {
+		if e.Kind == "type" {
+			for _, f := range fields(e.Sig) {
+				stillUsed[f[0]] = true
+			}
+		}
+	}
+	ren := map[string]string{}
+	bad := map[string]bool{}
+	var notes []string
+	var names []string
+	for n := range base {
+		names = append(names, n)
+	}
+	sort.Strings(names)
+	for _, n := range names {
+		b := base[n]
+		c, ok := cur[n]
+		if !ok || b.Kind != "type" || c.Kind != "type" || b.Sig == c.Sig {
+			continue
+		}
+		bf, cf := fields(b.Sig), fields(c.Sig)
+		if bf == nil || len(bf) != len(cf) {
+			continue
+		}
+		same := true
+		for i := range bf {
+			if bf[i][1] != cf[i][1] {
+				same = false
+			}
+		}
+		if !same {
+			continue
+		}
+		for i := range bf {
+			o, nn := bf[i][0], cf[i][0]
+			if o == nn || o == "" || nn == "" || stillUsed[o] {
+				continue
+			}
+			if prev, ok := ren[o]; ok && prev != nn {
+				bad[o] = true
+				continue
+			}
+			ren[o] = nn
+			notes = append(notes, fmt.Sprintf("%s: field %s.%s is now %s", rel, n, o, nn))
+		}
+	}
+	for o := range bad {
+		delete(ren, o)
+	}
+	return ren, notes
 }
 
 // forwarder: `func [(r recv)] old(p0 T0, …) results { [return] [r.]new(p0, …) }` from the printed type `func(T0, …) results`.
